@@ -2,7 +2,7 @@
 from oblib import ob
 
 BOUNDS = {"quick": "", "thorough": ""}
-ASSUMPTIONS = []
+ASSUMPTIONS = ["Token.String (used by the accessors only to build error text) is cut: its result is an opaque string", "strconv.ParseFloat on symbolic digits is an uninterpreted function (value of non-integer literals not checked)"]
 
 
 def obligations(tier):
@@ -14,6 +14,7 @@ def obligations(tier):
         for nd, tail in ([(1, ""), (18, ""), (19, ""), (20, ""), (21, ""), (2, ".5"), (1, "e2"), (19, ".0")] if q else
                          [(n, "") for n in range(1, 23)] + [(1, ".5"), (2, "e2"), (19, ".0"), (20, "e0"), (3, "E+1")]):
             L.append(ob("tokraw/neg=%d/digits=%d/tail=%s" % (neg, nd, tail or "none"), "jsontext", "VerifC10TokRaw", [neg, nd, tail], timeout_ms=60000))
-    for k in (0, 1, 2):
-        L.append(ob("toktyped/kind=%d" % k, "jsontext", "VerifC10TokTyped", [k], timeout_ms=120000, second="z3-new" if k < 2 else ""))
+    TS = "(github.com/go-json-experiment/json/jsontext.Token).String"
+    for k in (0, 1, 2, 3):
+        L.append(ob("toktyped/kind=%d" % k, "jsontext", "VerifC10TokTyped", [k], timeout_ms=120000, second="z3-new" if k < 2 else "", opaque=[TS], max_seconds=1500))
     return L
